@@ -55,3 +55,40 @@ Fixpoint copy_budget (v : jv) (b : nat) : jv * nat * bool :=
          end) l [] b
   | _ => (v, b, true)
   end.
+
+(* ---- reading a document (deserializeJson / deserializeMsgPack into a fresh document) when only b slots can be had:
+   the readers take the slot of an element (ArrayData::addElement) or the two slots of a member (ObjectData::addMember, after
+   the key was saved) FIRST and then read the value into it: nothing is rolled back, the element or member that was being read
+   stays with what was read.  `v` is the value the input denotes (no repeated keys, no value that needs an extension slot);
+   result: (the document afterwards, slots still available, Ok?) — not Ok is NoMemory ---- *)
+Fixpoint read_budget (v : jv) (b : nat) : jv * nat * bool :=
+  match v with
+  | JArr l =>
+      (fix go (l : list jv) (acc : list jv) (b : nat) : jv * nat * bool :=
+         match l with
+         | [] => (JArr (rev_append acc []), b, true)
+         | e :: t =>
+             match b with
+             | O => (JArr (rev_append acc []), O, false)
+             | S b1 =>
+                 let '(pe, b', ok) := read_budget e b1 in
+                 if ok then go t (pe :: acc) b'
+                 else (JArr (rev_append (pe :: acc) []), b', false)          (* the element stays with what was read *)
+             end
+         end) l [] b
+  | JObj l =>
+      (fix go (l : list (bytes * jv)) (acc : list (bytes * jv)) (b : nat) : jv * nat * bool :=
+         match l with
+         | [] => (JObj (rev_append acc []), b, true)
+         | (k, e) :: t =>
+             match b with
+             | O => (JObj (rev_append acc []), O, false)
+             | S O => (JObj (rev_append acc []), O, false)                   (* key slot taken and lost *)
+             | S (S b2) =>
+                 let '(pe, b', ok) := read_budget e b2 in
+                 if ok then go t ((k, pe) :: acc) b'
+                 else (JObj (rev_append ((k, pe) :: acc) []), b', false)
+             end
+         end) l [] b
+  | _ => (v, b, true)
+  end.
